@@ -31,7 +31,11 @@ PN = 'openhtf/core/phase_nodes.py'
 
 def _ret_name(p):
   r = p.last_return()
-  return (dotted(r.value) or norm(r.value)) if r is not None and r.value else None
+  if r is None or not r.value:
+    return None
+  # a returned local stands for what it was last bound to on this path
+  v = cfgm.path_resolve(p, r.value, before_index=len(p.steps) - 1)
+  return dotted(v) or norm(v)
 
 
 def skip_classify(rec='subtest_rec', extra=None):
